@@ -307,7 +307,10 @@ impl SchemaCatalog {
         let content = serde_json::to_string_pretty(self)
             .map_err(|e| SchemaError::IoError(format!("Failed to serialize schemas: {e}")))?;
 
-        fs::write(path, content)
+        // Atomic and durable replace (temp file, fsync, rename, fsync of the directory): an
+        // in-place rewrite leaves an empty or torn file after a crash, and a schema file that
+        // does not parse is loaded as an empty catalog.
+        crate::rule_catalog::write_file_atomically(path, content.as_bytes())
             .map_err(|e| SchemaError::IoError(format!("Failed to write schema catalog: {e}")))?;
 
         Ok(())
